@@ -1,10 +1,12 @@
 package main
 
 import (
+	"fmt"
 	"go/ast"
 	"go/constant"
 	"go/token"
 	"go/types"
+	"sort"
 	"strings"
 
 	"golang.org/x/tools/go/cfg"
@@ -377,4 +379,272 @@ func reachFirstIter(g *Graph, info *types.Info, body *ast.BlockStmt, stop func(*
 		}
 	}
 	return r
+}
+
+// reachWithFacts — blocks reachable from the entry without passing a stop block, along paths that are consistent with what the
+// path itself established about plain local variables: a variable that was assigned nil / a non-nil variable / true / false, or
+// tested on the edge taken, keeps that value until it is assigned again, and a later test of it has only one feasible outcome.
+// (After helpers are inlined, "the helper failed" travels as `err = err_1; break L` to a test `if err != nil` behind the
+// inlined body; without this the edge "err is nil" of that test would be taken on the failure path too.)
+// The exploration is over (block, facts) states and only ever removes paths on which a variable would have two values at once.
+func reachWithFacts(g *Graph, info *types.Info, stop func(*cfg.Block) bool) map[*cfg.Block]bool {
+	type facts map[types.Object]string // "nil" | "nonnil" | "true" | "false"
+	key := func(b *cfg.Block, f facts) string {
+		var ks []string
+		for o, v := range f {
+			ks = append(ks, fmt.Sprintf("%p=%s", o, v))
+		}
+		sort.Strings(ks)
+		return fmt.Sprintf("%p|%s", b, strings.Join(ks, ","))
+	}
+	clone := func(f facts) facts {
+		n := facts{}
+		for k, v := range f {
+			n[k] = v
+		}
+		return n
+	}
+	objOfE := func(e ast.Expr) types.Object {
+		if id, ok := ast.Unparen(e).(*ast.Ident); ok && id.Name != "_" {
+			if o := info.Defs[id]; o != nil {
+				return o
+			}
+			return info.Uses[id]
+		}
+		return nil
+	}
+	valueOf := func(e ast.Expr, f facts) string {
+		e = ast.Unparen(e)
+		if tv, ok := info.Types[e]; ok && tv.Value != nil && tv.Value.Kind() == constant.Bool {
+			if constant.BoolVal(tv.Value) {
+				return "true"
+			}
+			return "false"
+		}
+		if isNilIdent(info, e) {
+			return "nil"
+		}
+		if o := objOfE(e); o != nil {
+			return f[o]
+		}
+		return ""
+	}
+	apply := func(n ast.Node, f facts) {
+		switch x := n.(type) {
+		case *ast.AssignStmt:
+			if len(x.Lhs) == len(x.Rhs) {
+				vals := make([]string, len(x.Rhs))
+				for i := range x.Rhs {
+					vals[i] = valueOf(x.Rhs[i], f)
+				}
+				for i, l := range x.Lhs {
+					if o := objOfE(l); o != nil {
+						if vals[i] != "" && (x.Tok == token.ASSIGN || x.Tok == token.DEFINE) {
+							f[o] = vals[i]
+						} else {
+							delete(f, o)
+						}
+					}
+				}
+				return
+			}
+			for _, l := range x.Lhs {
+				if o := objOfE(l); o != nil {
+					delete(f, o)
+				}
+			}
+		case *ast.IncDecStmt:
+			if o := objOfE(x.X); o != nil {
+				delete(f, o)
+			}
+		case *ast.DeclStmt:
+			if gd, ok := x.Decl.(*ast.GenDecl); ok {
+				for _, sp := range gd.Specs {
+					vs, ok := sp.(*ast.ValueSpec)
+					if !ok {
+						continue
+					}
+					for i, nm := range vs.Names {
+						o := info.Defs[nm]
+						if o == nil {
+							continue
+						}
+						switch {
+						case i < len(vs.Values):
+							if v := valueOf(vs.Values[i], f); v != "" {
+								f[o] = v
+							} else {
+								delete(f, o)
+							}
+						case len(vs.Values) == 0:
+							switch u := o.Type().Underlying().(type) {
+							case *types.Basic:
+								if u.Info()&types.IsBoolean != 0 {
+									f[o] = "false"
+								}
+							case *types.Interface, *types.Pointer, *types.Slice, *types.Map, *types.Signature, *types.Chan:
+								f[o] = "nil"
+							}
+						}
+					}
+				}
+			}
+		default:
+			// a statement that takes the address of a variable, or a closure that may assign it: forget it
+			ast.Inspect(n, func(m ast.Node) bool {
+				switch y := m.(type) {
+				case *ast.UnaryExpr:
+					if y.Op == token.AND {
+						if o := objOfE(y.X); o != nil {
+							delete(f, o)
+						}
+					}
+				case *ast.FuncLit:
+					ast.Inspect(y.Body, func(k ast.Node) bool {
+						if as, ok := k.(*ast.AssignStmt); ok {
+							for _, l := range as.Lhs {
+								if o := objOfE(l); o != nil {
+									delete(f, o)
+								}
+							}
+						}
+						return true
+					})
+				}
+				return true
+			})
+		}
+	}
+	// outcome of a condition under the facts: "true", "false" or "" (both), plus what each edge teaches
+	var evalCond func(e ast.Expr, f facts) string
+	evalCond = func(e ast.Expr, f facts) string {
+		e = ast.Unparen(e)
+		switch x := e.(type) {
+		case *ast.Ident:
+			if v := f[objOfE(x)]; v == "true" || v == "false" {
+				return v
+			}
+		case *ast.UnaryExpr:
+			if x.Op == token.NOT {
+				switch evalCond(x.X, f) {
+				case "true":
+					return "false"
+				case "false":
+					return "true"
+				}
+			}
+		case *ast.BinaryExpr:
+			if x.Op == token.EQL || x.Op == token.NEQ {
+				var v string
+				switch {
+				case isNilIdent(info, x.Y):
+					v = f[objOfE(x.X)]
+				case isNilIdent(info, x.X):
+					v = f[objOfE(x.Y)]
+				}
+				if v == "nil" || v == "nonnil" {
+					if (v == "nil") == (x.Op == token.EQL) {
+						return "true"
+					}
+					return "false"
+				}
+			}
+		}
+		return ""
+	}
+	learn := func(e ast.Expr, outcome bool, f facts) {
+		e = ast.Unparen(e)
+		neg := false
+		for {
+			u, ok := e.(*ast.UnaryExpr)
+			if !ok || u.Op != token.NOT {
+				break
+			}
+			neg = !neg
+			e = ast.Unparen(u.X)
+		}
+		if neg {
+			outcome = !outcome
+		}
+		switch x := e.(type) {
+		case *ast.Ident:
+			if o := objOfE(x); o != nil {
+				if _, isVar := o.(*types.Var); isVar {
+					f[o] = map[bool]string{true: "true", false: "false"}[outcome]
+				}
+			}
+		case *ast.BinaryExpr:
+			if x.Op == token.EQL || x.Op == token.NEQ {
+				var o types.Object
+				switch {
+				case isNilIdent(info, x.Y):
+					o = objOfE(x.X)
+				case isNilIdent(info, x.X):
+					o = objOfE(x.Y)
+				}
+				if _, isVar := o.(*types.Var); isVar {
+					if (x.Op == token.EQL) == outcome {
+						f[o] = "nil"
+					} else {
+						f[o] = "nonnil"
+					}
+				}
+			}
+		}
+	}
+	reached := map[*cfg.Block]bool{}
+	seen := map[string]bool{}
+	type item struct {
+		b *cfg.Block
+		f facts
+	}
+	var work []item
+	if e := g.entry(); e != nil && !stop(e) {
+		work = append(work, item{e, facts{}})
+	}
+	steps := 0
+	for len(work) > 0 {
+		it := work[len(work)-1]
+		work = work[:len(work)-1]
+		k := key(it.b, it.f)
+		if seen[k] {
+			continue
+		}
+		seen[k] = true
+		reached[it.b] = true
+		steps++
+		if steps > 20000 {
+			// give up on precision, never on soundness: everything reachable in the plain graph
+			for b := range g.reachable([]*cfg.Block{g.entry()}, stop) {
+				reached[b] = true
+			}
+			return reached
+		}
+		f := clone(it.f)
+		var cond ast.Expr
+		for i, n := range it.b.Nodes {
+			if i == len(it.b.Nodes)-1 && len(it.b.Succs) == 2 {
+				if ce, ok := n.(ast.Expr); ok {
+					cond = ce
+					break
+				}
+			}
+			apply(n, f)
+		}
+		for si, s := range it.b.Succs {
+			if stop(s) {
+				continue
+			}
+			nf := clone(f)
+			if cond != nil {
+				out := evalCond(cond, f)
+				if (out == "true" && si == 1) || (out == "false" && si == 0) {
+					continue
+				}
+				learn(cond, si == 0, nf)
+			}
+			work = append(work, item{s, nf})
+		}
+	}
+	return reached
 }
